@@ -154,11 +154,45 @@ fn config(rq: u32, rs: u32, subid: usize) -> ServerConfig {
 
 type Stopper = Box<dyn FnOnce() + Send>;
 
+/// Loop-back address to listen on: 127.0.0.1 first; when the port space of that address is exhausted (tens of
+/// thousands of short-lived listeners in one run leave their ports in TIME_WAIT) another address of 127.0.0.0/8.
+async fn bind_loopback() -> TcpListener {
+	use std::sync::atomic::{AtomicU32, Ordering};
+	static N: AtomicU32 = AtomicU32::new(0);
+	let mut last = None;
+	for attempt in 0..200u32 {
+		let addr = if attempt == 0 {
+			"127.0.0.1:0".to_string()
+		} else {
+			let k = N.fetch_add(1, Ordering::Relaxed).wrapping_add(std::process::id());
+			format!("127.{}.{}.{}:0", 1 + (k / 62500) % 250, 1 + (k / 250) % 250, 1 + k % 250)
+		};
+		match TcpListener::bind(&addr).await {
+			Ok(l) => return l,
+			Err(e) => last = Some(e),
+		}
+		if attempt > 20 {
+			tokio::time::sleep(Duration::from_millis(50)).await;
+		}
+	}
+	panic!("bind: {:?}", last);
+}
+
 /// Start the entry point on loop-back TCP; returns the address and a closure that shuts it down.
 async fn start_tcp(ep: &str, cfg: ServerConfig, methods: Methods) -> (std::net::SocketAddr, Stopper) {
 	match ep {
 		"server" => {
-			let server = Server::builder().set_config(cfg).build("127.0.0.1:0").await.expect("bind");
+			let mut tries = 0;
+			let server = loop {
+				let probe = bind_loopback().await;
+				let ip = probe.local_addr().unwrap().ip();
+				drop(probe);
+				match Server::builder().set_config(cfg.clone()).build((ip, 0)).await {
+					Ok(s) => break s,
+					Err(e) if tries > 50 => panic!("bind: {e:?}"),
+					Err(_) => tries += 1,
+				}
+			};
 			let addr = server.local_addr().unwrap();
 			let handle = server.start(methods);
 			(addr, Box::new(move || {
@@ -166,7 +200,7 @@ async fn start_tcp(ep: &str, cfg: ServerConfig, methods: Methods) -> (std::net::
 			}))
 		}
 		"tower" | "wsconnect" => {
-			let listener = TcpListener::bind("127.0.0.1:0").await.expect("bind");
+			let listener = bind_loopback().await;
 			let addr = listener.local_addr().unwrap();
 			let (stop_handle, server_handle) = stop_channel();
 			let svc_builder = Server::builder().set_config(cfg.clone()).to_service_builder();
